@@ -15,7 +15,7 @@ P4 output-path faults: WriteSolFile closes the file explicitly (close() throws),
 U1 unsupported constructs raise UnsupportedError unconditionally.
 """
 import re
-from ..cfg import Facts, kids, strip, walk, cv, render, call_args, call_object
+from ..cfg import expand_locals, norm_facts, xrender, Facts, kids, strip, walk, cv, render, call_args, call_object
 from ..cfg import short_loc as _short_loc
 from ..facts import export, export_many, AnalysisBroken
 
@@ -173,7 +173,7 @@ def run(rep, ctx):
         rc = [c for c in walk(h) if c["k"] == "CXXMemberCallExpr" and c.get("callee", "").endswith("::ReportError")]
         if not rc:
             continue
-        a0 = strip(call_args(rc[0])[0])
+        a0 = strip(expand_locals(run_, call_args(rc[0])[0], 0, True))      # a named solve result is looked through
         tn = t.replace("const ", "").replace("&", "").strip() or "..."
         if a0["k"] == "ConditionalOperator":
             c, x, y = kids(a0)
